@@ -158,6 +158,10 @@ func noConflict(fset *token.FileSet, c *ast.Choice, firsts [][]any, i, at int) {
 
 func runCompile() {
 	tpl.ShowConflict(false)
+	partialASTPanics := 0
+	defer func() {
+		hlib.EmitRaw(map[string]any{"v": "summary", "cl_newex_panics_on_partial_ast_of_rejected_source_not_judged": partialASTPanics})
+	}()
 	hlib.ForEachCase(func(idx int, c *compileCase) {
 		src, key := renderSource(c.Src)
 		res := hlib.Result{Idx: idx, V: "ok", Input: map[string]any{"src": src}}
@@ -190,10 +194,10 @@ func runCompile() {
 			if oCl.panicked {
 				if oParse.err == nil {
 					fail(oCl)
-				} else if res.V == "ok" {
-					// a partial AST of a source the parser rejected is not a grammar source: recorded, not judged
-					res.V, res.Sig = "drift", "cl-on-rejected-ast:"+oCl.sig
-					res.Detail = fmt.Sprintf("cl.NewEx on the partial AST of %q: %s", src, oCl.msg)
+				} else {
+					// The partial AST of a source the parser rejected is not a grammar source, and no entry point that
+					// takes a source (tpl.New / NewEx / FromFile) hands it to cl.NewEx: outside the statement, counted only.
+					partialASTPanics++
 				}
 			}
 		}
